@@ -25,6 +25,7 @@ package frugal
 // Decoding: whatever sequence of pairs is laid out in [start, end) is accepted, and every pair of it is
 // in the result with its value. (With hsum(result) <= end - start, below, nothing else is.)
 //@ func lib.v0ProtocolMarshaler.readPairs(v, buff, start, end)
+//@   locals headers, i, nameSize, name, valueSize, value
 //@   requires 0 <= start && end <= len(buff)
 //@   ensures laid(buff, start, end) ==> err == nil && forall(j, 0, hn(), has(result, hk(j)) && result[hk(j)] == hv(j))
 //@   loop 0 invariant laid(buff, start0, end) ==> 0 <= iter0 && iter0 <= hn() && i == ho(iter0) && forall(j, 0, iter0, has(headers, hk(j)) && headers[hk(j)] == hv(j))
@@ -37,6 +38,7 @@ package frugal
 //@   loop 0 decreases end - i
 
 //@ func lib.v0ProtocolMarshaler.unmarshalHeadersFromFrame(v, frame)
+//@   locals size
 //@   ensures err == nil ==> result != nil && fresh(result) && len(frame) >= 4 && 0 <= u32be(frame, 0) && u32be(frame, 0) <= len(frame) - 4
 //@   ensures err == nil && len(frame) <= 2147483647 ==> hsum(result) <= u32be(frame, 0)
 //@   ensures err != nil ==> result == nil
@@ -45,6 +47,7 @@ package frugal
 // The stream reader takes exactly the 4-byte size and then the announced number of bytes from the
 // reader: what follows (the Thrift payload) is left untouched.
 //@ func lib.v0ProtocolMarshaler.unmarshalHeaders(v, reader)
+//@   locals buff, err, e, ok, size, err, e, ok
 //@   ensures err == nil ==> result != nil && fresh(result)
 //@   ensures err == nil ==> consumed(reader) == old(consumed(reader)) + 4 + size && size >= 0
 //@   ensures err == nil ==> ncalls("io.ReadFull") == 2
@@ -53,6 +56,7 @@ package frugal
 //@   modifies alloc, ghost(consumed, reader)
 
 //@ func lib.v0ProtocolMarshaler.unmarshalFrame(v, frame, components)
+//@   locals headers, err, payloadOffset
 //@   modifies alloc, components.headers, components.payload
 
 //@ iface lib.protocolMarshaler.unmarshalHeaders
@@ -63,11 +67,13 @@ package frugal
 //@   same_as lib.v0ProtocolMarshaler.unmarshalFrame
 
 //@ func lib.getHeadersFromFrame(frame)
+//@   locals marshaler, err
 //@   ensures err == nil ==> result != nil
 //@   ensures err != nil ==> result == nil
 //@   modifies alloc
 
 //@ func lib.readHeader(reader)
+//@   locals buff, err, e, ok, marshaler, err
 //@   ensures err == nil ==> result != nil && fresh(result)
 //@   ensures err != nil ==> result == nil
 //@   modifies alloc, ghost(consumed, reader)
@@ -80,6 +86,7 @@ package frugal
 
 // The context handed to a handler is a new object carrying a fresh op id of its own.
 //@ func lib.FProtocol.ReadRequestHeader(f)
+//@   locals headers, err, ctx, name, value, opid, ok, cid
 //@   ensures err == nil ==> result != nil
 //@   ensures err != nil ==> result == nil
 //@   ensures err == nil ==> typeis(result, "*lib.FContextImpl") && fresh(cast(result, "lib.FContextImpl")) && ncalls("lib.getNextOpID") == 1
@@ -104,6 +111,7 @@ package frugal
 // semantics: stated for a well-formed context no other goroutine is writing to during the call.)
 //@ pred ctxwf(x) = typeis(x, "*lib.FContextImpl") && respH(x) != reqH(x) && respH(x) != nil && reqH(x) != nil
 //@ func lib.FProtocol.ReadResponseHeader(f, ctx)
+//@   locals headers, err, name, value
 //@   exclusive_of ctx
 //@   ensures_exclusive result == nil ==> ncalls("lib.readHeader") == 1
 //@   ensures_exclusive result == nil && old(ctxwf(ctx)) ==> forallkey(k, k != "_opid" && has(callret("lib.readHeader", 0, 0), k) ==> has(respH(ctx), k) && respH(ctx)[k] == callret("lib.readHeader", 0, 0)[k])
@@ -134,6 +142,7 @@ package frugal
 //@ typeinv lib.TMemoryOutputBuffer bufInv(self)
 
 //@ func lib.NewTMemoryOutputBuffer(size)
+//@   locals buffer
 //@   constructs lib.TMemoryOutputBuffer
 //@   ensures result != nil && fresh(result) && result.limit == size && bufInv(result) && bufLen(result) == 4
 //@   modifies alloc
@@ -163,11 +172,13 @@ package frugal
 //@   modifies ghost(buflen, f.TMemoryBuffer.Buffer)
 
 //@ func lib.TMemoryOutputBuffer.WriteRune(f, r)
+//@   locals b
 //@   requires bufInv(f)
 //@   ensures bufInv(f) && f.limit == old(f.limit)
 //@   modifies ghost(buflen, f.TMemoryBuffer.Buffer), alloc
 
 //@ func lib.TMemoryOutputBuffer.ReadFrom(f, r)
+//@   locals total, chunk, n, err, werr
 //@   requires bufInv(f)
 //@   ensures bufInv(f) && f.limit == old(f.limit)
 //@   modifies *
@@ -179,6 +190,7 @@ package frugal
 //@   modifies ghost(buflen, f.TMemoryBuffer.Buffer)
 
 //@ func lib.TMemoryOutputBuffer.Bytes(f)
+//@   locals data
 //@   requires bufInv(f)
 //@   ensures len(result) == bufLen(f) && bufLen(f) == old(bufLen(f))
 //@   modifies alloc, elems(result)
@@ -197,10 +209,12 @@ package frugal
 //@ immutable lib.fBaseTransport.requestSizeLimit, lib.fHTTPTransport.fBaseTransport, lib.fHTTPTransport.responseSizeLimit
 
 //@ func lib.IsErrTooLarge(err)
+//@   locals e, ok
 //@   ensures result == (err != nil && implements(err, "thrift.TTransportException") && (ttype(err) == TRANSPORT_EXCEPTION_REQUEST_TOO_LARGE || ttype(err) == TRANSPORT_EXCEPTION_RESPONSE_TOO_LARGE))
 
 // The headers go to the transport in one Write; a size-limit error from it is returned unchanged.
 //@ func lib.FProtocol.writeHeader(f, headers)
+//@   locals buff, n, err
 //@   requires hsum(headers) <= 2147483642                  // assumption: less than 2 GiB of headers
 //@   ensures ncalls("io.Writer.Write") == 1
 //@   ensures tooLargeErr(callret("io.Writer.Write", 0, 1)) ==> result == callret("io.Writer.Write", 0, 1)
@@ -220,18 +234,21 @@ package frugal
 // Over the limit: nothing is handed to NATS and the call fails. A REQUEST_TOO_LARGE error is
 // produced only for a message that really is over the limit.
 //@ func lib.fNatsTransport.Oneway(f, ctx, data)
+//@   locals err
 //@   ensures len(data) > natsMaxMessageSize ==> result != nil && ncalls("nats.go.Conn.PublishRequest") == 0
 //@   ensures len(data) > natsMaxMessageSize ==> ttype(result) == TRANSPORT_EXCEPTION_REQUEST_TOO_LARGE || ttype(result) == TRANSPORT_EXCEPTION_NOT_OPEN
 //@   ensures len(data) <= natsMaxMessageSize && ncalls("nats.go.Conn.PublishRequest") == 0 && result != nil ==> ttype(result) == TRANSPORT_EXCEPTION_NOT_OPEN
 //@   modifies *
 
 //@ func lib.fNatsTransport.Request(f, ctx, data)
+//@   locals resultC, err, err, opId, err, err, result
 //@   ensures len(data) > natsMaxMessageSize ==> err != nil && ncalls("nats.go.Conn.PublishRequest") == 0
 //@   ensures len(data) > natsMaxMessageSize && ncalls("lib.fNatsTransport.checkMessageSize") == 1 ==> ttype(err) == TRANSPORT_EXCEPTION_REQUEST_TOO_LARGE && implements(err, "thrift.TTransportException")
 //@   ensures len(data) <= natsMaxMessageSize && ncalls("lib.fNatsTransport.checkMessageSize") == 1 && ncalls("nats.go.Conn.PublishRequest") == 0 ==> err != nil && ncalls("lib.getOpID") == 1
 //@   modifies *
 
 //@ func lib.fHTTPTransport.Request(h, ctx, data)
+//@   locals response, err
 //@   requires h.requestSizeLimit <= 9223372036854775807      // assumption: the configured limit fits an int
 //@   requires h.requestSizeLimit == 0 || h.requestSizeLimit >= 4    // assumption: a positive limit leaves room for the 4-byte frame prefix
 //@   ensures h.requestSizeLimit > 0 && len(data) > h.requestSizeLimit ==> err != nil && ncalls("lib.fHTTPTransport.makeRequest") == 0
@@ -242,6 +259,7 @@ package frugal
 // HTTP status 413 from the server is reported as RESPONSE_TOO_LARGE.
 // The HTTP round trip gets a context whose timeout is the FContext's (C13).
 //@ func lib.fHTTPTransport.makeRequest(h, fCtx, requestPayload)
+//@   locals encoded, encoder, err, err, ctx, cancel, request, err, key, value, key, value, response, buf, err, err, body, bts
 //@   ensures ncalls("http.Client.Do") == 1 ==> ncalls("context.WithTimeout") == 1 && ncalls("lib.FContext.Timeout") == 1 && ncalls("http.Request.WithContext") == 1
 //@   ensures ncalls("http.Client.Do") == 1 ==> callarg("context.WithTimeout", 0, 1) == callret("lib.FContext.Timeout", 0, 0)
 //@   ensures ncalls("http.Client.Do") == 1 ==> callarg("http.Request.WithContext", 0, 1) == callret("context.WithTimeout", 0, 0) && callarg("http.Client.Do", 0, 1) == callret("http.Request.WithContext", 0, 0)
@@ -250,6 +268,7 @@ package frugal
 
 // The request message is assembled in a buffer limited to the transport's request size limit.
 //@ func lib.FStandardClient.prepareMessage(client, ctx, fctx, method, args, kind)
+//@   locals buffer, oprot, err, err, err, err, err
 //@   ensures err == nil ==> client.limit == 0 || len(result) <= max(client.limit, 4)
 //@   ensures ncalls("lib.NewTMemoryOutputBuffer") == 1
 //@   ensures callarg("lib.NewTMemoryOutputBuffer", 0, 0) == client.limit
@@ -258,6 +277,7 @@ package frugal
 // An application exception 100 never reaches the caller as such: it is reported as the transport
 // error RESPONSE_TOO_LARGE.
 //@ func lib.FStandardClient.processReply(client, ctx, fctx, method, result, resultTransport)
+//@   locals iprot, err, oMethod, mTypeID, err, error0
 //@   ensures ncalls("thrift.TApplicationException.Read") == 1 && callret("thrift.TApplicationException.Read", 0, 0) == nil && ncalls("thrift.TProtocol.ReadMessageEnd") == 1 && callret("thrift.TProtocol.ReadMessageEnd", 0, 0) == nil && atype(error0) == APPLICATION_EXCEPTION_RESPONSE_TOO_LARGE ==> result != nil && implements(result, "thrift.TTransportException") && ttype(result) == TRANSPORT_EXCEPTION_RESPONSE_TOO_LARGE
 //@   ensures ncalls("thrift.TApplicationException.Read") == 1 && callret("thrift.TApplicationException.Read", 0, 0) == nil && ncalls("thrift.TProtocol.ReadMessageEnd") == 1 && callret("thrift.TProtocol.ReadMessageEnd", 0, 0) == nil && atype(error0) != APPLICATION_EXCEPTION_RESPONSE_TOO_LARGE ==> result == error0
 //@   modifies *
@@ -273,12 +293,14 @@ package frugal
 //@ immutable lib.fStompPublisherTransport.maxPublishSize
 
 //@ func lib.fNatsPublisherTransport.Publish(n, topic, data)
+//@   locals err
 //@   ensures len(data) > natsMaxMessageSize ==> result != nil && ncalls("nats.go.Conn.Publish") == 0
 //@   ensures len(data) > natsMaxMessageSize ==> ttype(result) == TRANSPORT_EXCEPTION_REQUEST_TOO_LARGE || ncalls("lib.fNatsPublisherTransport.getClosedConditionError") == 1
 //@   ensures len(data) <= natsMaxMessageSize && ncalls("nats.go.Conn.Publish") == 0 ==> ncalls("lib.fNatsPublisherTransport.getClosedConditionError") == 1
 //@   modifies *
 
 //@ func lib.fStompPublisherTransport.Publish(m, topic, data)
+//@   locals destination, err
 //@   ensures m.maxPublishSize > 0 && len(data) > m.maxPublishSize ==> result != nil && ncalls("stomp.Conn.Send") == 0
 //@   ensures m.maxPublishSize > 0 && len(data) > m.maxPublishSize ==> ttype(result) == TRANSPORT_EXCEPTION_REQUEST_TOO_LARGE || ttype(result) == TRANSPORT_EXCEPTION_NOT_OPEN
 //@   ensures (m.maxPublishSize <= 0 || len(data) <= m.maxPublishSize) && ncalls("stomp.Conn.Send") == 0 ==> result != nil && ttype(result) == TRANSPORT_EXCEPTION_NOT_OPEN
@@ -290,11 +312,13 @@ package frugal
 
 // The client buffers requests in a buffer limited to what the transport says it can carry.
 //@ func lib.NewFStandardClient(provider)
+//@   locals client
 //@   ensures result != nil && ncalls("lib.FTransport.GetRequestSizeLimit") == 1
 //@   ensures result.limit == callret("lib.FTransport.GetRequestSizeLimit", 0, 0)
 //@   modifies *
 
 //@ func lib.NewFScopeClient(provider)
+//@   locals transport, protocolFactory, client
 //@   ensures result != nil && ncalls("lib.FPublisherTransport.GetPublishSizeLimit") == 1
 //@   ensures result.limit == callret("lib.FPublisherTransport.GetPublishSizeLimit", 0, 0)
 //@   modifies *
@@ -305,6 +329,7 @@ package frugal
 // One frame: fresh input and output buffers, one Process call, and the reply is published to the frame's
 // own reply subject exactly when the processor left something in the output buffer (C14).
 //@ func lib.fNatsServer.processFrame(f, frame)
+//@   locals input, output, iprot, oprot, err
 //@   ensures ncalls("lib.FProcessor.Process") <= 1 && ncalls("nats.go.Conn.Publish") <= 1
 //@   ensures ncalls("nats.go.Conn.Publish") == 1 ==> callarg("nats.go.Conn.Publish", 0, 1) == frame.reply && ncalls("lib.FProcessor.Process") == 1 && callret("lib.FProcessor.Process", 0, 0) == nil && callret("lib.TMemoryOutputBuffer.HasWriteData", 0, 0)
 //@   ensures ncalls("lib.FProcessor.Process") == 1 && callret("lib.FProcessor.Process", 0, 0) == nil && callret("lib.TMemoryOutputBuffer.HasWriteData", 0, 0) ==> ncalls("nats.go.Conn.Publish") == 1 && result == callret("nats.go.Conn.Publish", 0, 0)
@@ -319,6 +344,7 @@ package frugal
 
 // TFramedTransport.Read calls itself once, on a temporary buffer of exactly the remaining frame size.
 //@ func lib.TFramedTransport.Read(p, buf)
+//@   locals l, err, frameSize, tmp, got
 //@   decreases len(buf)
 //@   modifies *
 
@@ -334,11 +360,13 @@ package frugal
 //@ fold hsum(k string, v string) = 8 + len(k) + len(v)
 
 //@ func lib.v0ProtocolMarshaler.calculateHeaderSize(v, headers)
+//@   locals size, name, value
 //@   requires hsum(headers) <= 2147483647                  // assumption: less than 2 GiB of headers
 //@   ensures result == hsum(headers)
 //@   loop 0 invariant size == hsum(headers, visited(headers)) && headers == headers0
 
 //@ func lib.v0ProtocolMarshaler.marshalHeaders(v, headers)
+//@   locals size, buff, i, name, value
 //@   requires hsum(headers) <= 2147483642                  // assumption: less than 2 GiB of headers
 //@   ensures len(result) == hsum(headers) + 5 && result != nil && fresh(result)
 //@   ensures result[0] == 0 && u32be(result, 1) == hsum(headers)
@@ -349,6 +377,7 @@ package frugal
 // Re-framing: the new frame carries the merged headers followed by the untouched payload, and its size
 // field counts everything after itself.
 //@ func lib.v0ProtocolMarshaler.addHeadersToFrame(v, frame, headers)
+//@   locals existing, err, name, value, serializedHeaders, oldHeadersSize, frameSize, buff, offset
 //@   requires len(frame) >= 5
 //@   requires hsum(headers) + len(frame) <= 2147483000                   // assumption: less than 2 GiB in total
 //@   ensures err == nil ==> result != nil && len(result) >= 9 && u32be(result, 0) == len(result) - 4
@@ -365,9 +394,11 @@ package frugal
 //@   same_as lib.v0ProtocolMarshaler.addHeadersToFrame
 
 //@ func lib.addHeadersToFrame(frame, headers)
+//@   locals marshaler, err
 //@   requires hsum(headers) + len(frame) <= 2147483000
 
 //@ func lib.prependFrameSize(buf)
+//@   locals frame
 //@   ensures len(result) == len(buf) + 4 && u32be(result, 0) == len(buf) % 4294967296
 //@   modifies alloc
 
@@ -386,6 +417,7 @@ package frugal
 //@ pred respH(c) = cast(c, "lib.FContextImpl").responseHeaders
 
 //@ func lib.NewFContext(correlationID)
+//@   locals ctx
 //@   ensures result != nil && typeis(result, "*lib.FContextImpl") && fresh(cast(result, "lib.FContextImpl"))
 //@   ensures ncalls("lib.getNextOpID") == 1
 //@   ensures has(reqH(result), "_opid") && reqH(result)["_opid"] == callret("lib.getNextOpID", 0, 0)
@@ -394,6 +426,7 @@ package frugal
 
 // Accessors hand out fresh copies: same keys, same values, different map.
 //@ func lib.FContextImpl.RequestHeaders(c)
+//@   locals headers, name, value
 //@   ensures result != nil && fresh(result) && dom(result) == dom(c.requestHeaders)
 //@   ensures forallkey(k, has(result, k) ==> result[k] == c.requestHeaders[k])
 //@   modifies alloc
@@ -402,6 +435,7 @@ package frugal
 //@   loop 0 invariant dom(c.requestHeaders) == loopentry(dom(c.requestHeaders)) && vals(c.requestHeaders) == loopentry(vals(c.requestHeaders))
 
 //@ func lib.FContextImpl.ResponseHeaders(c)
+//@   locals headers, name, value
 //@   ensures result != nil && fresh(result) && dom(result) == dom(c.responseHeaders)
 //@   ensures forallkey(k, has(result, k) ==> result[k] == c.responseHeaders[k])
 //@   modifies alloc
@@ -410,12 +444,14 @@ package frugal
 //@   loop 0 invariant dom(c.responseHeaders) == loopentry(dom(c.responseHeaders)) && vals(c.responseHeaders) == loopentry(vals(c.responseHeaders))
 
 //@ func lib.FContextImpl.EphemeralProperties(c)
+//@   locals properties, key, value
 //@   ensures result != nil && fresh(result)
 //@   modifies alloc
 //@   loop 0 invariant properties != nil && fresh(properties) && c == c0
 
 // A clone has its own maps, equal to the original's except for a fresh op id.
 //@ func lib.FContextImpl.Clone(c)
+//@   locals cloned
 //@   ensures result != nil && typeis(result, "*lib.FContextImpl") && fresh(cast(result, "lib.FContextImpl"))
 //@   ensures ncalls("lib.getNextOpID") == 1
 //@   ensures reqH(result)["_opid"] == callret("lib.getNextOpID", 0, 0) && has(reqH(result), "_opid")
@@ -428,6 +464,7 @@ package frugal
 
 // The free function Clone does the same for any FContext.
 //@ func lib.Clone(ctx)
+//@   locals fctxWEP, ok, clone
 //@   ensures result != nil
 //@   modifies *
 
@@ -491,6 +528,7 @@ package frugal
 //@   modifies alloc
 
 //@ func lib.composeMiddleware(method, middleware)
+//@   locals handler, m, rangeindex
 //@   modifies alloc
 //@   ensures ncalls("lib.newInvocationHandler") == 1
 //@   ensures result == mwfold(elems(middleware), off(middleware), len(middleware), callret("lib.newInvocationHandler", 0, 0))
@@ -509,11 +547,13 @@ package frugal
 
 // Providers hand out a copy of their middleware list: same length, same elements, fresh backing array.
 //@ func lib.FScopeProvider.GetMiddleware(p)
+//@   locals middleware
 //@   ensures len(result) == len(p.middleware) && fresh(result)
 //@   ensures forall(i, 0, len(result), result[i] == p.middleware[i])
 //@   modifies alloc
 
 //@ func lib.FServiceProvider.GetMiddleware(f)
+//@   locals middleware
 //@   ensures len(result) == len(f.middleware) && fresh(result)
 //@   ensures forall(i, 0, len(result), result[i] == f.middleware[i])
 //@   modifies alloc
@@ -532,12 +572,14 @@ package frugal
 
 // A Method starts with the composition of the base handler and the given middleware list.
 //@ func lib.NewMethod(proxiedHandler, method, methodName, middleware)
+//@   locals reflectHandler, reflectMethodValue, reflectMethod, ok
 //@   ensures ncalls("lib.composeMiddleware") == 1
 //@   ensures result.handler == callret("lib.composeMiddleware", 0, 0)
 //@   modifies *
 
 // A processor hands a new middleware to every registered function.
 //@ func lib.FBaseProcessor.AddMiddleware(f, middleware)
+//@   locals p
 //@   modifies *
 
 //@ func lib.FBaseProcessorFunction.InvokeMethod(f, args)
@@ -546,6 +588,7 @@ package frugal
 
 // The base handler calls the wrapped function exactly once.
 //@ func lib.newInvocationHandler$1(_, _, args)
+//@   locals argValues, i, arg, rangeindex, returnValues, results, i, ret, rangeindex
 //@   ensures ncalls("reflect.Value.Call") == 1
 //@   modifies *
 //@   loop 0 invariant len(argValues) == len(args) && args == args0 && 0 - 1 <= rangeindex && rangeindex <= len(args)
@@ -573,12 +616,14 @@ package frugal
 //@   modifies mapof(c.requestHeaders), alloc
 
 //@ func lib.FContextImpl.Timeout(c)
+//@   locals timeoutMillisStr, timeoutMillis, err
 //@   noescape
 //@   ensures_exclusive has(c.requestHeaders, "_timeout") && okint(c.requestHeaders["_timeout"]) && 0 - 9000000000000 <= parseint(c.requestHeaders["_timeout"]) && parseint(c.requestHeaders["_timeout"]) <= 9000000000000 ==> result == parseint(c.requestHeaders["_timeout"]) * 1000000
 //@   ensures_exclusive !has(c.requestHeaders, "_timeout") ==> result == defaultTimeout
 
 // A positive timeout becomes the deadline of the context handed to Thrift.
 //@ func lib.ToContext(fctx)
+//@   locals ctx, to
 //@   ensures ncalls("lib.FContext.Timeout") == 1
 //@   ensures callret("lib.FContext.Timeout", 0, 0) > 0 ==> ncalls("context.WithTimeout") == 1
 //@   ensures callret("lib.FContext.Timeout", 0, 0) > 0 ==> callarg("context.WithTimeout", 0, 1) == callret("lib.FContext.Timeout", 0, 0)
@@ -596,6 +641,7 @@ package frugal
 // Another attempt is allowed only while fewer than MaxReopenAttempts have been made, and the next wait
 // never exceeds MaxWait (doubling may wrap around: the result is then negative, which Sleep ignores).
 //@ func lib.BaseFTransportMonitor.OnReopenFailed(m, prevAttempts, prevWait)
+//@   locals nextWait
 //@   ensures result0 == (prevAttempts < m.MaxReopenAttempts)
 //@   ensures result1 <= m.MaxWait || (!result0 && result1 == 0)
 //@   ensures !result0 ==> result1 == 0
@@ -612,6 +658,7 @@ package frugal
 // At most max(MaxReopenAttempts, 1) Open calls, every sleep at most MaxWait, success reported exactly
 // when an Open succeeded.
 //@ func lib.monitorRunner.attemptReopen(r, InitialWait)
+//@   locals wait, reopen, prevAttempts, err
 //@   requires InitialWait <= mon(r).MaxWait && mon(r).MaxWait >= 0
 //@   ensures opened(r.transport) - old(opened(r.transport)) <= max(mon(r).MaxReopenAttempts, 1)
 //@   ensures result == (ncalls("lib.FTransportMonitor.OnReopenSucceeded") == 1)
@@ -624,10 +671,12 @@ package frugal
 
 // A monitor configured with InitialWait > MaxWait contradicts itself; excluded.
 //@ func lib.monitorRunner.run(r)
+//@   locals cause, shouldContinue
 //@   requires mon(r).InitialWait <= mon(r).MaxWait && mon(r).MaxWait >= 0
 //@   modifies *
 
 //@ func lib.monitorRunner.handleUncleanClose(r, cause)
+//@   locals reopen, InitialWait
 //@   requires mon(r).InitialWait <= mon(r).MaxWait && mon(r).MaxWait >= 0
 //@   ensures opened(r.transport) - old(opened(r.transport)) <= mon(r).MaxReopenAttempts
 //@   modifies *
@@ -644,10 +693,12 @@ package frugal
 //@ immutable lib.fAdapterTransport.transport, lib.fAdapterTransport.registry
 
 //@ func lib.fAdapterTransport.Open(f)
+//@   locals err, e, ok
 //@   ensures result == nil ==> ncalls("lib.fAdapterTransport.readLoop") == 0
 //@   modifies *
 
 //@ func lib.fAdapterTransport.close(f, cause)
+//@   locals err
 //@   check-close
 //@   modifies *
 
@@ -661,6 +712,7 @@ package frugal
 // Sequential view of the registry map (exclusive clauses); the locking discipline is proved in the normal pass.
 
 //@ func lib.fRegistryImpl.Register(c, ctx, resultC)
+//@   locals opID, err, ok
 //@   ensures ncalls("lib.getOpID") == 1
 //@   ensures_exclusive result == nil && callret("lib.getOpID", 0, 1) == nil ==> has(c.channels, callret("lib.getOpID", 0, 0)) && c.channels[callret("lib.getOpID", 0, 0)] == resultC && !old(has(c.channels, callret("lib.getOpID", 0, 0)))
 //@   ensures_exclusive result != nil ==> dom(c.channels) == old(dom(c.channels)) && vals(c.channels) == old(vals(c.channels))
@@ -668,6 +720,7 @@ package frugal
 //@   modifies mapof(c.channels), alloc
 
 //@ func lib.fRegistryImpl.Unregister(c, ctx)
+//@   locals opID, err
 //@   ensures ncalls("lib.getOpID") == 1
 //@   ensures_exclusive callret("lib.getOpID", 0, 1) == nil ==> !has(c.channels, callret("lib.getOpID", 0, 0))
 //@   ensures_exclusive forall(k, 0, 18446744073709551616, k != callret("lib.getOpID", 0, 0) ==> has(c.channels, k) == old(has(c.channels, k)) && c.channels[k] == old(c.channels[k]))
@@ -676,6 +729,7 @@ package frugal
 // Routing is by the op id parsed from the frame's own headers and nothing else.
 //@ specfn parseuint(Str) Int
 //@ func lib.fRegistryImpl.Execute(c, frame)
+//@   locals headers, err, opid
 //@   ensures result == nil ==> ncalls("lib.fRegistryImpl.dispatch") == 1 && ncalls("lib.getHeadersFromFrame") == 1 && ncalls("strconv.ParseUint") == 1
 //@   ensures result == nil ==> callarg("lib.fRegistryImpl.dispatch", 0, 1) == callret("strconv.ParseUint", 0, 0) && callarg("lib.fRegistryImpl.dispatch", 0, 2) == frame
 //@   ensures result == nil ==> callarg("strconv.ParseUint", 0, 0) == callret("lib.getHeadersFromFrame", 0, 0)["_opid"] && callarg("lib.getHeadersFromFrame", 0, 0) == frame
@@ -686,6 +740,7 @@ package frugal
 // dispatch never changes the registry; the only thing it can do is offer the frame to the channel
 // registered for that op id (at most one non-blocking send).
 //@ func lib.fRegistryImpl.dispatch(c, opid, frame)
+//@   locals resultC, ok
 //@   ensures result == nil
 //@   ensures_exclusive dom(c.channels) == old(dom(c.channels)) && vals(c.channels) == old(vals(c.channels))
 //@   ensures nsends() <= 1
@@ -695,12 +750,15 @@ package frugal
 
 // Reading the op id of a context changes nothing.
 //@ func lib.getOpID(ctx)
+//@   locals opIDStr, ok, id, err
 //@   modifies alloc
 //@ func lib.FContextImpl.RequestHeader(c, name)
+//@   locals val, ok
 //@   noescape
 //@ iface lib.FContext.RequestHeader
 //@   same_as lib.FContextImpl.RequestHeader
 //@ func lib.FContextImpl.ResponseHeader(c, name)
+//@   locals val, ok
 //@   noescape
 
 // ---- routing (C01) on the NATS response path ------------------------------------------------------------------------
@@ -710,6 +768,7 @@ package frugal
 //@   modifies *
 
 //@ func lib.fHTTPTransport.Oneway(h, ctx, data)
+//@   locals err
 //@   requires h.requestSizeLimit <= 9223372036854775807
 //@   requires h.requestSizeLimit == 0 || h.requestSizeLimit >= 4
 //@   modifies *
@@ -722,6 +781,7 @@ package frugal
 // with the context just read; an unknown method gets exactly one UNKNOWN_METHOD exception message,
 // written while the processor's write mutex is held.
 //@ func lib.FBaseProcessor.Process(f, iprot, oprot)
+//@   locals fctx, err, ctx, cancelFn, name, processor, ok, err, err, ok, err, ex, err, err, err, err, err
 //@   ensures ncalls("lib.FProtocol.ReadRequestHeader") == 1
 //@   ensures callret("lib.FProtocol.ReadRequestHeader", 0, 1) != nil ==> result == callret("lib.FProtocol.ReadRequestHeader", 0, 1) && ncalls("lib.FProtocol.WriteResponseHeader") == 0 && ncalls("thrift.TProtocol.WriteMessageBegin") == 0 && ncalls("thrift.TProtocol.Flush") == 0 && ncalls("lib.FProcessorFunction.Process") == 0
 //@   ensures ncalls("lib.FProcessorFunction.Process") <= 1
@@ -736,6 +796,7 @@ package frugal
 
 // SendReply: success is exactly one REPLY message for the method, written under the write mutex.
 //@ func lib.FBaseProcessorFunction.SendReply(f, fctx, oprot, method, result)
+//@   locals ctx, cancelFn, err, err, err, err, err
 //@   ensures result == nil && ncalls("lib.FBaseProcessorFunction.trapError") == 0 ==> ncalls("lib.FProtocol.WriteResponseHeader") == 1 && ncalls("thrift.TProtocol.WriteMessageBegin") == 1 && ncalls("thrift.TStruct.Write") == 1 && ncalls("thrift.TProtocol.WriteMessageEnd") == 1 && ncalls("thrift.TProtocol.Flush") == 1
 //@   ensures result == nil && ncalls("lib.FBaseProcessorFunction.trapError") == 0 ==> inorder("lib.FProtocol.WriteResponseHeader", "thrift.TProtocol.WriteMessageBegin", "thrift.TStruct.Write", "thrift.TProtocol.WriteMessageEnd", "thrift.TProtocol.Flush")
 //@   ensures ncalls("thrift.TProtocol.WriteMessageBegin") == 1 ==> callarg("thrift.TProtocol.WriteMessageBegin", 0, 2) == method && callarg("thrift.TProtocol.WriteMessageBegin", 0, 3) == 2 && callarg("thrift.TProtocol.WriteMessageBegin", 0, 4) == 0
@@ -748,6 +809,7 @@ package frugal
 
 // sendError: exactly one EXCEPTION message of the given kind, for the given context and method.
 //@ func lib.FBaseProcessorFunction.sendError(f, ctx, fctx, oprot, kind, method, message)
+//@   locals err
 //@   ensures ncalls("thrift.NewTApplicationException") == 1 && callarg("thrift.NewTApplicationException", 0, 0) == kind && callarg("thrift.NewTApplicationException", 0, 1) == message && result == callret("thrift.NewTApplicationException", 0, 0)
 //@   ensures ncalls("lib.FProtocol.WriteResponseHeader") == 1 && ncalls("thrift.TProtocol.WriteMessageBegin") == 1 && ncalls("thrift.TApplicationException.Write") == 1 && ncalls("thrift.TProtocol.WriteMessageEnd") == 1 && ncalls("thrift.TProtocol.Flush") == 1
 //@   ensures inorder("lib.FProtocol.WriteResponseHeader", "thrift.TProtocol.WriteMessageBegin", "thrift.TApplicationException.Write", "thrift.TProtocol.WriteMessageEnd", "thrift.TProtocol.Flush")
@@ -755,12 +817,14 @@ package frugal
 //@   modifies *
 
 //@ func lib.FBaseProcessorFunction.SendError(f, fctx, oprot, kind, method, message)
+//@   locals ctx, cancelFn, err
 //@   ensures ncalls("lib.FBaseProcessorFunction.sendError") == 1 && nheld("lib.FBaseProcessorFunction.sendError", 0) == 1
 //@   ensures callarg("lib.FBaseProcessorFunction.sendError", 0, 2) == fctx && callarg("lib.FBaseProcessorFunction.sendError", 0, 3) == oprot && callarg("lib.FBaseProcessorFunction.sendError", 0, 4) == kind && result == callret("lib.FBaseProcessorFunction.sendError", 0, 0)
 //@   modifies *
 
 // A connection is served until its processor reports an error (EOF ends it quietly).
 //@ func lib.FSimpleServer.accept(p, client)
+//@   locals framed, iprot, oprot, processor, err, err, ok, err, ok
 //@   ensures lastcallret("lib.FProcessor.Process", 0) != nil
 //@   modifies *
 
@@ -771,6 +835,7 @@ package frugal
 // Serve, after the quit signal: drain NATS, tell Stop, close the work queue, wait for the workers - in
 // exactly this order - and only then return.
 //@ func lib.fNatsServer.Serve(f)
+//@   locals subscriptions, slicelit, subject, rangeindex, sub, err, wg, i, done
 //@   ensures result == nil ==> inorder("recv:lib.fNatsServer.quit", "call:lib.fNatsServer.drainNatsMessages", "send:", "close:lib.fNatsServer.workC", "call:sync.WaitGroup.Wait")
 //@   ensures result == nil ==> ncalls("lib.fNatsServer.drainNatsMessages") == 1 && ncalls("sync.WaitGroup.Wait") == 1
 //@   ensures result == nil ==> sendval(0) == callret("lib.fNatsServer.drainNatsMessages", 0, 0)
@@ -782,6 +847,7 @@ package frugal
 // drainNatsMessages: success means every subscription was drained, then the connection flushed, then a
 // barrier posted and its callback awaited.
 //@ func lib.fNatsServer.drainNatsMessages(f, subs)
+//@   locals log, sub, rangeindex, err, err, start, barrier, err
 //@   ensures result == nil ==> forall(j, 0, len(subs), drained(subs[j]) >= old(drained(subs[j])) + 1)
 //@   ensures result == nil ==> ncalls("nats.go.Conn.Flush") == 1 && ncalls("nats.go.Conn.Barrier") == 1 && inorder("call:nats.go.Conn.Flush", "call:nats.go.Conn.Barrier", "recv:")
 //@   modifies *
@@ -789,12 +855,14 @@ package frugal
 
 // Stop: hand Serve a completion channel, close quit, and wait for Serve's answer.
 //@ func lib.fNatsServer.Stop(f)
+//@   locals done
 //@   ensures inorder("send:lib.fNatsServer.quit", "close:lib.fNatsServer.quit", "recv:")
 //@   ensures nsends() == 1
 //@   modifies *
 
 // handler: exactly one enqueue of the message's bytes and reply subject, unless it has no reply subject.
 //@ func lib.fNatsServer.handler(f, msg)
+//@   locals ephemeralProperties
 //@   ensures msg.Reply == "" ==> nsends() == 0
 //@   ensures msg.Reply != "" ==> nsends() == 1 && sendchan(0) == f.workC
 //@   modifies *
@@ -814,14 +882,18 @@ package frugal
 //@   modifies *
 
 //@ func lib.fNatsSubscriberTransport.Subscribe(n, topic, callback)
+//@   locals sub, err, i
 //@   modifies *
 //@   loop 0 invariant n == n0 && n.isSubscribed && n.quitC != nil && !cclosed(n.quitC)
 //@ func lib.fNatsSubscriberTransport.Unsubscribe(n)
+//@   locals err
 //@   check-close
 //@   modifies *
 //@ func lib.fStompSubscriberTransport.Subscribe(m, topic, callback)
+//@   locals destination, sub, err
 //@   modifies *
 //@ func lib.fStompSubscriberTransport.Unsubscribe(m)
+//@   locals err
 //@   check-close
 //@   modifies *
 
@@ -836,6 +908,7 @@ package frugal
 // A frame handed to the registry is a buffer of its own: readFrame allocates it, the read loop passes
 // exactly that buffer on (C01: a parked response is never overwritten by a later one).
 //@ func lib.fAdapterTransport.readFrame(f, framedTransport)
+//@   locals err, slicelit, buff
 //@   ensures err == nil ==> fresh(result)
 //@   modifies *
 
@@ -843,6 +916,7 @@ package frugal
 // of another request); the reply written is the encoding of exactly that output buffer.
 //@ immutable thrift.TMemoryBuffer.Buffer
 //@ func lib.NewFrugalHandlerFunc$1(w, r)
+//@   locals limitStr, limit, err, decoder, frameSize, err, input, outBuf, output, iprot, oprot, err, encoded, encoder, err, e, e, e
 //@   ensures ncalls("lib.FProcessor.Process") <= 1
 //@   ensures ncalls("lib.FProcessor.Process") == 1 ==> fresh(outBuf) && fresh(output) && output.Buffer == outBuf
 //@   ensures ncalls("lib.FProcessor.Process") == 1 ==> cast(callarg("lib.FProtocolFactory.GetProtocol", 1, 1), "thrift.TMemoryBuffer") == output && callarg("lib.FProcessor.Process", 0, 2) == callret("lib.FProtocolFactory.GetProtocol", 1, 0) && callarg("lib.FProcessor.Process", 0, 1) == callret("lib.FProtocolFactory.GetProtocol", 0, 0)
@@ -862,5 +936,6 @@ package frugal
 //@   ensures result != nil && fresh(result) && result.frameSize == 0
 //@   modifies *
 //@ func lib.fAdapterTransport.readLoop(f, closeSignal)
+//@   locals framedTransport, frame, err, err, err, ok
 //@   loop 0 invariant framedTransport != nil && fresh(framedTransport)
 //@   modifies *
